@@ -1838,8 +1838,9 @@ func (p *parser) parseOperand(lhs, allowTuple, allowCmd bool) (x ast.Expr, isTup
 		lparen := p.pos
 		p.next()
 		if allowTuple && p.tok == token.RPAREN { // () => expr
+			rparen := p.pos
 			p.next()
-			return &tupleExpr{opening: lparen, closing: p.pos}, true
+			return &tupleExpr{opening: lparen, closing: rparen}, true
 		}
 		p.exprLev++
 		x = p.parseRHSOrType() // types may be parenthesized: (some type)
@@ -1857,7 +1858,7 @@ func (p *parser) parseOperand(lhs, allowTuple, allowCmd bool) (x ast.Expr, isTup
 				p.next()
 			}
 			p.exprLev--
-			p.expect(token.RPAREN)
+			t.closing = p.expect(token.RPAREN) // position of ")", also when "..." precedes it
 			return t, true
 		}
 		p.exprLev--
